@@ -12,14 +12,15 @@ from vp import invariants as I
 BY_DESIGN = (ValueError, TypeError)
 
 
-def segments(case, traces):
-    """[(trace, dts, first_index_of_segment, fresh)] one per 'epoch' (between resets), using the last trace
-    of each epoch; dts[k] = requested dt (s) of the run that produced instant k."""
+def segments(case, traces, with_init=False):
+    """[(trace, dts)] (or [(trace, dts, init)]) one per 'epoch' (between resets), using the last trace of each epoch;
+    dts[k] = requested dt (s) of the run that produced instant k; init = the initial conditions of that epoch."""
     out = []
     dts = [None]
     n_prev = 0
     last_tr = None
     ti = 0
+    init = case['init']
     for op in case['history']:
         if ti >= len(traces):
             break
@@ -35,10 +36,11 @@ def segments(case, traces):
             last_tr = tr
         elif op['op'] == 'reset':
             if last_tr is not None:
-                out.append((last_tr, dts))
+                out.append((last_tr, dts, init) if with_init else (last_tr, dts))
             dts, n_prev, last_tr = [None], 0, None
+            init = op.get('init') or case['init']
     if last_tr is not None:
-        out.append((last_tr, dts))
+        out.append((last_tr, dts, init) if with_init else (last_tr, dts))
     return out
 
 
